@@ -265,8 +265,10 @@ func Run(c *core.Ctx) int {
 			c.TieBroken("drive:C17/calc", "reordered document: Go differs from the model", c01.Case{Doc: perms[i]})
 		}
 
-		// --- inversion
-		if d.Rounding == nil {
+		// --- inversion (an externally supplied rounding amount is inverted with the rest: it was
+		// excluded here until Invert was repaired in /repo d6d7c00 — it used to drop the rounding
+		// with the totals and then fail its own payable check)
+		{
 			c.Count("relation:invert", 1)
 			inv2 := d.Invoice()
 			_ = inv2.Calculate()
